@@ -37,6 +37,8 @@ def check(case, M):
     r = B.run_case(case, M, tier)
     if "trivial" in r:
         return {"key": B.key_of(case), "nontrivial": False, "tags": ["trivial:" + r["trivial"]], "failures": []}
+    if r.get("inconclusive"):
+        return {"key": B.key_of(case), "nontrivial": False, "tags": ["inconclusive:" + r["inconclusive"]], "failures": []}
     if r["lang"] is None:
         return {"key": B.key_of(case), "nontrivial": False, "tags": ["trivial:recursive"], "failures": []}
     failures = []
